@@ -9,7 +9,10 @@ if ! git apply --check "$patch" 2>/dev/null; then echo "PATCH-DOES-NOT-APPLY $pa
 git apply "$patch"
 trap 'git -C /repo checkout -- . ; git -C /repo clean -fdq' EXIT
 cd /verif
+# a run against a mutant must not replace the committed evidence of the real tree
+[ -f evidence/$prop.json ] && cp evidence/$prop.json /tmp/.evidence-$prop.bak
 out=$(VERIF_SEED=${VERIF_SEED:-1} ./check "$prop" "$tier" 2>&1); rc=$?
+[ -f /tmp/.evidence-$prop.bak ] && mv /tmp/.evidence-$prop.bak evidence/$prop.json
 sig=$(echo "$out" | grep -A1 '^VIOLATION' | grep -m1 'signature=' | sed 's/.*signature=//')
 case $rc in
  1) echo "DETECTED $prop $(basename "$patch") :: $sig";;
